@@ -1,6 +1,7 @@
 (* reads lines `(suite id input implobs)`, prints one verdict line per case *)
 let suites : (string * (Sexp.t -> Sexp.t -> Verdict.t)) list = [
   "c18", S_c18.run;
+  "c18w", S_c18.run_c18w;
   "sub", S_sub.run `C02;
   "subsh", S_sub.run `C11;
   "tm", S_sub.run_tm;
